@@ -7,15 +7,15 @@ theorem preprocess_assemble {nl p q : Str} (h : Clean nl p q) : preprocess (asse
   have hs := h.safe
   simp only [List.all_append, Bool.and_eq_true] at hs
   obtain ⟨⟨h1, h2⟩, h3⟩ := hs
-  have hd : (("gemini://".toList ++ nl ++ p ++ if q.isEmpty = true then [] else '?' :: q)).dropWhile isC0OrSpace
-      = ("gemini://".toList ++ nl ++ p ++ if q.isEmpty = true then [] else '?' :: q) := by
-    simp [List.dropWhile, isC0OrSpace]
+  have hd : ((gemPrefix ++ nl ++ p ++ if q.isEmpty = true then [] else '?' :: q)).dropWhile isC0OrSpace
+      = (gemPrefix ++ nl ++ p ++ if q.isEmpty = true then [] else '?' :: q) := by
+    simp [gemPrefix, List.dropWhile, isC0OrSpace]
   rw [hd]
   rw [List.filter_eq_self]
   intro c hc
   simp only [List.mem_append] at hc
   rcases hc with ((hc | hc) | hc) | hc
-  · simp at hc; rcases hc with rfl|rfl|rfl|rfl|rfl|rfl|rfl|rfl|rfl <;> decide
+  · simp [gemPrefix] at hc; rcases hc with rfl|rfl|rfl|rfl|rfl|rfl|rfl|rfl|rfl <;> decide
   · exact List.all_eq_true.mp h1 c hc
   · exact List.all_eq_true.mp h2 c hc
   · split at hc
@@ -28,10 +28,10 @@ theorem preprocess_assemble {nl p q : Str} (h : Clean nl p q) : preprocess (asse
 theorem splitScheme_assemble (nl p q : Str) :
     splitScheme (assemble nl p q) = (gemini, ['/','/'] ++ nl ++ p ++ (if q.isEmpty then [] else '?' :: q)) := by
   unfold splitScheme assemble
-  have : findIdx (· = ':') ("gemini://".toList ++ nl ++ p ++ if q.isEmpty = true then [] else '?' :: q) = some 6 := by
-    simp [findIdx]
+  have : findIdx (· = ':') (gemPrefix ++ nl ++ p ++ if q.isEmpty = true then [] else '?' :: q) = some 6 := by
+    simp [gemPrefix, findIdx]
   rw [this]
-  simp [schemeOk, firstIsAsciiAlpha, schemeChar, lowerAscii, gemini, Char.isAlphanum, Char.isAlpha, Char.isDigit, Char.isUpper, Char.isLower]
+  simp [gemPrefix, schemeOk, firstIsAsciiAlpha, schemeChar, lowerAscii, gemini, Char.isAlphanum, Char.isAlpha, Char.isDigit, Char.isUpper, Char.isLower]
 
 theorem splitNetloc_clean {nl p q' : Str} (h1 : nl.all (fun c => !isDelim c) = true)
     (hp : p = [] ∨ p.head? = some '/') (hq : q' = [] ∨ q'.head? = some '?') :
